@@ -73,7 +73,7 @@ PROPS = {
         assumptions=["pickle + Blosc round-trip a chunk's value list unchanged (exercised, not modelled)", "sys.getsizeof is an input of the writer model"],
     ),
     "C12": dict(
-        units=[],
+        units=["GenRegionIndex"],
         props_files=["Props/C12.v"],
         driver="c12",
         rule="(a) generated (contig, position, length) columns stored in the narrowest / wider integer dtypes, END-style spans, "
@@ -84,7 +84,7 @@ PROPS = {
         assumptions=["numpy promotes int32 + intN (N<=32) to int32 and wraps; zarr .blocks returns the variant chunks in order"],
     ),
     "C16": dict(
-        units=["GenPartitions"],
+        units=["GenPartitions", "GenPlink"],
         props_files=["Props/C16.v"],
         driver="c16",
         rule="filesets from the model's independent bed writer (random padding bits) with 1..13 samples (all residues mod 4) and "
@@ -157,7 +157,7 @@ PROPS = {
         assumptions=["click passes option values of the declared type to the command function (exercised with the library mocked)"],
     ),
     "C07": dict(
-        units=[],
+        units=["GenIcfProtocol", "GenVczProtocol", "GenPlink"],
         props_files=["Props/C07.v"],
         driver="c07",
         rule="generated VCFs with >= 11 index partitions: every explode partition and every encode partition as its own OS process "
